@@ -152,6 +152,35 @@ def run(ctx):
         for bits in (0, 1 << 63):
             t = set_floats(a, bits)
             insts.append((i, t, values.build(t, cl.cls(i))))
+    # … and aware datetimes that differ only in `fold` (PEP 495): equal and hash-equal, one hour apart
+    import dataclasses as _dcs
+    import datetime as _dt
+    try:
+        from zoneinfo import ZoneInfo
+        ny = ZoneInfo("America/New_York")
+        folds = [_dt.datetime(2021, 11, 7, 1, 30, tzinfo=ny, fold=0), _dt.datetime(2021, 11, 7, 1, 30, tzinfo=ny, fold=1)]
+        if folds[1].timestamp() - folds[0].timestamp() != 3600:
+            folds = []
+    except Exception:  # noqa: BLE001 - no tz database: no fold twins
+        folds = []
+
+    def map_dt(o, new):
+        if _dcs.is_dataclass(o) and not isinstance(o, type):
+            return type(o)(**{f.name: map_dt(getattr(o, f.name), new) for f in _dcs.fields(o)})
+        if isinstance(o, tuple):
+            return tuple(map_dt(x, new) for x in o)
+        if isinstance(o, _dt.datetime):
+            return new
+        return o
+    dtc = [i for i in range(len(cl)) if any(f.metadata.get("kafka_type") == "datetime_i64" for f in _dcs.fields(cl.cls(i)))]
+    nfold = 0
+    for i, a, obj in (codec.gen_instances(cl, dtc[:: max(1, len(dtc) // 4)][:4], 2, rng, big_strings=False) if folds else []):
+        if " D" not in " " + values.render(a):
+            continue
+        for fdt in folds:
+            o2 = map_dt(obj, fdt)
+            insts.append((i, values.abstract(o2), o2))
+        nfold += 1
     refs = {}
     for n, (i, a, obj) in enumerate(insts):
         refs[n] = ref_bytes(cl.cls(i), obj)
@@ -188,7 +217,7 @@ def run(ctx):
                                   "class": cl.keys[i], "history": [(o, cl.keys[insts[m][0]]) for o, m in ops][:40]})
             else:
                 v = entity_reader(c)(io.BytesIO(refs[n]))
-                if v != obj or not same(v, obj):
+                if not same(v, obj):    # (not `!=`: aware datetimes inside a DST fold never compare equal across zones, PEP 495)
                     fails.append({"what": "decoding depends on the history of created/used readers and writers",
                                   "class": cl.keys[i], "history": [(o, cl.keys[insts[m][0]]) for o, m in ops][:40]})
         nontrivial += 1
@@ -242,7 +271,7 @@ def run(ctx):
             except Exception as e:  # noqa: BLE001
                 fails.append({"what": f"read failure surfaced as {type(e).__name__}", "class": cl.keys[i]})
             v = r(io.BytesIO(good))
-            if v != obj:
+            if not same(v, obj):
                 fails.append({"what": f"decoding after a failed call (read #{k}) differs", "class": cl.keys[i], "k": k})
                 break
     # ---------- (2b) a *value* that cannot be encoded (fails after part of the message was staged), then reuse
